@@ -220,5 +220,6 @@ def run(ctx):
     )
     callforms.run_solver_forms(ctx)
     errorpaths.run(ctx, case_linear, [c for c in configs(ctx.tier) if not c['analytic'] and c['prof'] == 'most_aniso'][:1])
+    errorpaths.run_threaded(ctx, case_linear, [c for c in configs(ctx.tier) if not c['analytic'] and c['prof'] == 'most_aniso'][:1], threads=(2, 8))
     ctx.run_cases(case_linear, configs(ctx.tier), sub="linearity", chunksize=1)
     ctx.run_cases(case_representation, repr_cases(ctx.tier), sub="argument-representation", chunksize=1)
